@@ -141,6 +141,44 @@ func runISOCase(root, rel string, ps3 bool, permIdx int, titleID string, huge bo
 		if res.parsed.Joliet != nil {
 			compareHierarchy(res.img, res.parsed.Joliet.Root, filepath.Join(root, rel), true, "", &res.content)
 		}
+		// a reader that extracts lazily from the live view, several files at a time in alternating pieces (the image
+		// read in one go above was just tied to the source tree): every piece equals the same piece of that image
+		if !huge && res.parsed.Primary != nil && res.parsed.Joliet != nil {
+			for hi, h := range []*isoHierarchy{res.parsed.Primary, res.parsed.Joliet} {
+				var files []*isoNode
+				var walk func(n *isoNode)
+				walk = func(n *isoNode) {
+					for _, c := range n.Children {
+						if c.IsDir {
+							walk(c)
+						} else if c.Size > 0 && len(files) < 8 {
+							files = append(files, c)
+						}
+					}
+				}
+				walk(h.Root)
+				live := viewImage{v, res.announced}
+			pieces:
+				for c := int64(0); c < 200; c++ {
+					progressed := false
+					for _, n := range files {
+						off := c * 1000
+						if off >= n.Size {
+							continue
+						}
+						progressed = true
+						cnt := int(min(1000, n.Size-off))
+						if d := describeDiff(n.readAt(live, off, cnt), n.readAt(res.img, off, cnt)); d != "" {
+							res.content.add("interleaved-extraction", "file %q extracted in pieces alternating with %d other files (hierarchy %d): piece at file offset %d differs from the image read in one go: %s", n.Name, len(files)-1, hi, off, d)
+							break pieces
+						}
+					}
+					if !progressed {
+						break
+					}
+				}
+			}
+		}
 	}()
 	return res
 }
